@@ -91,3 +91,36 @@ Theorem C05_source_methods :
   methods_of "Iterator for GenericArrayIter<T,N>" = Some ["next"; "fold"; "size_hint"; "count"; "nth"; "last"] /\
   methods_of "DoubleEndedIterator for GenericArrayIter<T,N>" = Some ["next_back"; "rfold"; "nth_back"].
 Proof. repeat split. Qed.
+
+(* ---- T3: the INTERMEDIATE values of map / zip / fold and of the iterator's fold / rfold / clone, as regenerated
+        (coq/gen/GenPipe.v): an element destructor that panics inside the caller's function (the function drops
+        its argument) is a panic of call [pan]; whichever call that is, every element of every owned input and
+        every value already produced is released exactly once or returned -- the consumer / builder / iterator
+        that unwinding tears down releases exactly what was not yet handed out ---- *)
+From Coq Require Permutation.
+From GA Require Builder Functional FunctionalProofs Pipe PipeTie.
+From GAGen Require GenPipe.
+
+Theorem C05_source_intermediates_accounted : forall f g pan a b so nd init,
+  (let '(o, m, t, e, c) := Pipe.run_from_iter [a] so f g pan (PipeTie.pipe_of GenPipe.gen_map nd) (List.length a) in
+   Permutation.Permutation
+     (a ++ Functional.produced f 0 (firstn (Functional.completed pan (List.length a)) (map (fun x => [x]) a)))%list
+     (releases (m ++ t ++ e) ++ match o with Builder.Ok r => r | _ => [] end)%list) /\
+  (List.length a = List.length b -> Pipe.nd_eval nd (Pipe.NdOr (Pipe.NdArg 0) (Pipe.NdArg 1)) = true ->
+   let '(o, m, t, e, c) := Pipe.run_from_iter [b; a] so f g pan (PipeTie.pipe_of GenPipe.gen_inverted_zip nd) (List.length a) in
+   Permutation.Permutation
+     (a ++ b ++ Functional.produced f 0 (firstn (Functional.completed pan (List.length a)) (PipeTie.zrows a b)))%list
+     (releases (m ++ t ++ e) ++ match o with Builder.Ok r => r | _ => [] end)%list) /\
+  (let '(o, m, t, c) := Pipe.run_fold [a] so f g pan (PipeTie.pipe_of GenPipe.gen_fold nd) (List.length a) init in
+   releases (m ++ t) = a) /\
+  (let '(o, m, t, c) := Pipe.run_fold [a] so f g pan (PipeTie.pipe_of GenPipe.gen_iter_fold nd) (List.length a) init in
+   (o, (m ++ t)%list, List.concat c) = Functional.fold_ true g pan init a) /\
+  (let '(o, m, t, c) := Pipe.run_fold [a] so f g pan (PipeTie.pipe_of GenPipe.gen_iter_rfold nd) (List.length a) init in
+   exists t', Functional.fold_ true g pan init (rev a) = (o, (m ++ t')%list, List.concat c) /\ Permutation.Permutation t t').
+Proof.
+  exact (fun f g pan a b so nd init =>
+    conj (PipeTie.src_map_accounted f g pan a so nd)
+    (conj (PipeTie.src_zip_accounted f g pan a b so nd)
+    (conj (PipeTie.src_fold_accounted f g pan a so nd init)
+    (conj (PipeTie.tie_iter_fold f g pan a so nd init) (PipeTie.tie_iter_rfold f g pan a so nd init))))).
+Qed.
